@@ -238,7 +238,6 @@ fn spans_ok(text: &str, ts: &[Tok]) -> bool {
 }
 fn texts_ok(text: &str, ts: &[Tok]) -> bool { ts.iter().all(|t| text.get(t.from..t.to) == Some(t.text.as_str())) }
 fn drop_only(fls: &[Fl]) -> bool { fls.iter().all(|f| matches!(f, Fl::RemoveLong(_) | Fl::AlnumOnly | Fl::Stop(_))) }
-fn to_monotone(ts: &[Tok]) -> bool { ts.windows(2).all(|w| w[0].to <= w[1].to) }
 fn disjoint(ts: &[Tok]) -> bool { let mut lo = 0; for t in ts { if !(lo <= t.from && t.from <= t.to) { return false; } lo = t.to; } true }
 fn ranges_ok(frag: &str, rs: &[Range<usize>]) -> (bool, bool) {
     // (sorted & disjoint, inside & on boundaries)
@@ -275,7 +274,7 @@ fn main() {
     let mut rng = Rng::new(args.seed);
     let thorough = args.thorough();
     let mut out = CaseOut::new(&args.out, HEADER, 40);
-    let mut known_budget: BTreeMap<&'static str, i64> = [("F9", 12i64), ("F10", 12), ("F21", 12), ("F22", 12)].into_iter().collect();
+    let mut known_budget: BTreeMap<&'static str, i64> = [("F9", 12i64), ("F10", 12), ("F22", 12)].into_iter().collect();
 
     // ================= (i) tokens =================
     let n_texts = if thorough { 900 } else { 220 };
@@ -382,8 +381,7 @@ fn main() {
                 known_hit(&mut out, &mut known_budget, "F9", f9_in_class(&text, &toks, &frag, max), format!("f9_class {} {} {} {}", cps(&text), toks_term(&toks), cps(&frag), max), json!({"what": "fragment longer than max_num_chars", "case": desc, "fragment": frag})); }
             // -- highlighted(): sorted, disjoint, inside the fragment, on boundaries
             let (dis, inside) = ranges_ok(&frag, &hl);
-            if !inside { out.count("f21_hits", 1);
-                known_hit(&mut out, &mut known_budget, "F21", !to_monotone(&toks), format!("f21_class {}", toks_term(&toks)), json!({"what": "highlighted range outside the fragment / off a boundary", "case": desc, "fragment": frag, "highlighted": format!("{:?}", hl)})); }
+            out.spec_checked(inside, json!({"what": "highlighted range outside the fragment / off a boundary", "case": desc, "fragment": frag, "highlighted": format!("{:?}", hl)}));
             if !dis { out.count("f10_hits", 1);
                 known_hit(&mut out, &mut known_budget, "F10", !disjoint(&toks), format!("f10_class {}", toks_term(&toks)), json!({"what": "highlighted() ranges overlap", "case": desc, "highlighted": format!("{:?}", hl)})); }
             // -- collapsed ranges (what to_html uses): same predicates
@@ -398,8 +396,7 @@ fn main() {
             let html = guarded(|| gen.snippet(&text).to_html());
             match &html {
                 Err(e) => {
-                    if inside { out.spec_checked(false, json!({"what": "to_html panicked", "case": desc, "panic": e})); }
-                    else { known_hit(&mut out, &mut known_budget, "F21", !to_monotone(&toks), format!("f21_class {}", toks_term(&toks)), json!({"what": "to_html panicked (highlight outside the fragment)", "case": desc, "panic": e})); }
+                    out.spec_checked(false, json!({"what": "to_html panicked", "case": desc, "panic": e}));
                 }
                 Ok(h) => {
                     out.spec_checked(unhtml(h) == frag, json!({"what": "to_html does not read back as the fragment", "case": desc, "html": h}));
@@ -412,9 +409,9 @@ fn main() {
             if inside { out.coq_case("spec", format!("ranges_spec {} (collapse {})", cps(&frag), ranges_term(&hl)), desc.clone(), !hl.is_empty());
                         out.coq_case("spec", format!("hl_cover_spec {} {} {} {} {}", cps(&text), cps(&frag), ranges_term(&hl), toks_term(&toks), cf::list(&hits, |b| cf::boolean(*b))), desc.clone(), !hl.is_empty()); }
             if inside && dis { out.coq_case("spec", format!("ranges_spec {} {}", cps(&frag), ranges_term(&hl)), desc.clone(), !hl.is_empty()); }
-            // tie: collapse; fragment search (only where offset_to is monotone: unaffected by a repair of F21; exact scores)
+            // tie: collapse; fragment search (exact scores only)
             out.coq_case("tie", format!("ranges_eqb (collapse {}) {}", ranges_term(&hl), ranges_term(&col)), json!({"what": "collapse", "case": desc}), hl.len() >= 2);
-            if dyadic && to_monotone(&toks) {
+            if dyadic {
                 out.coq_case("tie", format!("snippet_eqb (n_snippet_of (text_fn_of {}) {} {} {} {}) {} {}", cf::list(&lowstr, |(a, b)| format!("({}, {})", cps(a), cps(b))),
                     terms_term, max, cps(&text), toks_term(&toks), cps(&frag), ranges_term(&hl)), json!({"what": "snippet model", "case": desc, "fragment": frag}), !hl.is_empty());
             }
@@ -468,13 +465,17 @@ fn main() {
         let toks = run(&mut build(&Tk::Ngram(2, 3, false), &[]), text).unwrap();
         let s = g.snippet(text);
         if !ranges_ok(s.fragment(), s.highlighted()).0 { out.coq_case("known:F10", format!("f10_class {}", toks_term(&toks)), json!({"what": "corpus F10", "highlighted": format!("{:?}", s.highlighted())}), true); }
-        // F21
+        // F21 (fixed in /repo): regression -- the highlight lies inside the fragment and to_html does not panic
         let text = "abcd";
         let mut m = BTreeMap::new(); m.insert("abc".to_string(), 1.0f32);
         let g = SnippetGenerator::new(m, build(&Tk::Ngram(1, 3, false), &[]), Field::from_field_id(0), 2);
-        let toks = run(&mut build(&Tk::Ngram(1, 3, false), &[]), text).unwrap();
-        let r = guarded(|| g.snippet(text).to_html());
-        if r.is_err() { out.coq_case("known:F21", format!("f21_class {}", toks_term(&toks)), json!({"what": "corpus F21: to_html panicked", "panic": format!("{:?}", r)}), true); }
+        let r = guarded(|| { let s = g.snippet(text); (s.fragment().to_string(), s.highlighted().to_vec(), s.to_html()) });
+        match r {
+            Err(e) => out.spec_checked(false, json!({"what": "corpus F21 regression: snippet/to_html panicked", "text": text, "tokenizer": "Ngram(1,3,false)", "terms": ["abc"], "max_num_chars": 2, "panic": e})),
+            Ok((frag, hl, html)) => {
+                out.coq_case("spec", format!("ranges_spec {} (collapse {}) && html_spec {} {}", cps(&frag), ranges_term(&hl), cps(&frag), cps(&html)), json!({"what": "corpus F21 regression", "fragment": frag, "highlighted": format!("{:?}", hl), "html": html}), true);
+            }
+        }
         // F22
         let text = "a\u{0}b";
         let toks = run(&mut build(&Tk::Facet, &[]), text).unwrap();
